@@ -913,6 +913,114 @@ fn follow_ups(s: &Snap, o: &mut Oracle) -> String {
     format!("n:{} rt:{} sd:{} fe:{} te:{} rec:{}", n, rt, sd, fe, te, fmt_recycle(s, o))
 }
 
+// ---- non-fresh targets (C10/C11): `read`, `read_from_ints`, `read_with_delta` write into a `&mut
+// Snap` that may have held another snapshot before (`Storage` reuses its free list); the result must
+// not depend on what the target held.
+
+fn fixed_uuid(b: u8, last: u8) -> Uuid {
+    let mut x = [b; 16];
+    x[15] = last;
+    Uuid::from_bytes(x)
+}
+
+/// a snapshot with two UUID types no generated input uses
+fn dirty_disjoint() -> Snap {
+    let mut b = Builder::new();
+    let _ = b.add_item(TypeId::Uuid(fixed_uuid(0xdd, 1)), 1, &[1, 2, 3]);
+    let _ = b.add_item(TypeId::Ordinal(5), 1, &[4]);
+    let _ = b.add_item(TypeId::Uuid(fixed_uuid(0xee, 2)), 2, &[5]);
+    b.finish()
+}
+
+/// the UUIDs named by the registry items of a snapshot
+fn snap_uuids(s: &Snap) -> Vec<Uuid> {
+    match snap_write_ints(s) {
+        Wr::Ok(xs) if xs.len() >= 2 => registry(&xs).iter().filter_map(|(_, d)| words_to_uuid(d)).collect(),
+        _ => vec![],
+    }
+}
+
+/// everything the public API shows of a snapshot: wire form, crc, items, lookups by every UUID in
+/// `uuids` (the snapshot's own and stale ones) and some ordinals, recycle + add
+fn battery(s: &Snap, uuids: &[Uuid]) -> String {
+    let mut out = fmt_snap(s);
+    let ids: Vec<u16> = match snap_items(s) {
+        Ok(l) => l.iter().map(|x| x.1).take(6).chain([0u16, 1, 2, 7]).collect(),
+        Err(_) => vec![0, 1, 2, 7],
+    };
+    for u in uuids {
+        for &id in &ids {
+            let r = match catch(|| s.item(TypeId::Uuid(*u), id).map(|d| d.to_vec())) {
+                Err(_) => "panic".to_string(),
+                Ok(None) => "none".to_string(),
+                Ok(Some(d)) => short(fmt_ints(&d)),
+            };
+            if r != "none" {
+                out.push_str(&format!(" {}.{}={}", to_hex(u.as_bytes()), id, r));
+            }
+        }
+    }
+    for &t in &[1u16, 5, 13] {
+        for &id in &ids {
+            if let Ok(Some(d)) = catch(|| s.item(TypeId::Ordinal(t), id).map(|d| d.to_vec())) {
+                out.push_str(&format!(" o{}.{}={}", t, id, short(fmt_ints(&d))));
+            }
+        }
+    }
+    let mut scratch = Oracle::new();
+    out.push_str(" rec:");
+    out.push_str(&fmt_recycle(s, &mut scratch));
+    out
+}
+
+fn fmt_outcome(r: &Rs<Snap>, uuids: &[Uuid]) -> String {
+    match r {
+        Rs::Ok(s, ws) => format!("ok:{}:{}", fmt_ws(ws), battery(s, uuids)),
+        Rs::Err(e) => format!("err:{:?}", e),
+        Rs::Panic => "panic".to_string(),
+    }
+}
+
+/// Repeats the read that gave `fresh` (into a fresh `Snap`) into three used targets — one that held
+/// the same snapshot (same UUIDs), one with disjoint UUID types, one with a superset — and compares
+/// the outcome and the whole query battery.
+fn reuse_check(what: &str, fresh: &Rs<Snap>, read_into: &dyn Fn(&mut Snap, &mut Vec<Warning>) -> Result<(), Error>, o: &mut Oracle) {
+    let disjoint = dirty_disjoint();
+    let mut uuids = vec![fixed_uuid(0xdd, 1), fixed_uuid(0xee, 2), fixed_uuid(0xcc, 3)];
+    let (same, superset) = match fresh {
+        Rs::Ok(s, _) => {
+            uuids.extend(snap_uuids(s));
+            let sup = catch(|| {
+                let mut b = s.clone().recycle();
+                let _ = b.add_item(TypeId::Uuid(fixed_uuid(0xcc, 3)), 3, &[9]);
+                // the items of the snapshot itself, so that it is a superset in items too
+                b.finish()
+            })
+            .unwrap_or_else(|_| disjoint.clone());
+            (s.clone(), sup)
+        }
+        _ => (disjoint.clone(), disjoint.clone()),
+    };
+    let want = fmt_outcome(fresh, &uuids);
+    for (name, mut target) in [("same UUIDs", same), ("disjoint UUIDs", disjoint), ("a superset of the UUIDs", superset)] {
+        let mut ws = vec![];
+        let r = match catch(|| read_into(&mut target, &mut ws)) {
+            Err(_) => Rs::Panic,
+            Ok(Err(e)) => Rs::Err(e),
+            Ok(Ok(())) => Rs::Ok(target, ws),
+        };
+        let got = fmt_outcome(&r, &uuids);
+        o.add("reused_targets", 1);
+        if got != want {
+            let (a, b) = (want.chars().take(160).collect::<String>(), got.chars().take(160).collect::<String>());
+            o.fail(
+                "C10+C11/target-reuse-differs",
+                format!("{} into a Snap that previously held a snapshot with {}: fresh target gives `{}`, used target gives `{}`", what, name, a, b),
+            );
+        }
+    }
+}
+
 fn op_rsnap(r: Rs<Snap>, o: &mut Oracle) -> String {
     match r {
         Rs::Ok(s, ws) => format!("ok:{}:{} {}", fmt_snap(&s), fmt_ws(&ws), follow_ups(&s, o)),
@@ -977,7 +1085,12 @@ fn op_rdelta(osz: ObjSize, r: Rs<Delta>, base: &[i32], o: &mut Oracle) -> String
                 }
             };
             let ap = match snap_read_ints(base) {
-                Rs::Ok(a, _) => match { storage_oracle(&a, &d, o); snap_apply(&a, &d) } {
+                Rs::Ok(a, _) => match {
+                    storage_oracle(&a, &d, o);
+                    let r = snap_apply(&a, &d);
+                    reuse_check("read_with_delta", &r, &|t, ws| t.read_with_delta(ws, &a, &d), o);
+                    r
+                } {
                     Rs::Ok(s, ws2) => format!("ok:{}:{} {}", fmt_snap(&s), fmt_ws(&ws2), follow_ups(&s, o)),
                     Rs::Err(e) => format!("err:{:?}", e),
                     Rs::Panic => {
@@ -1200,6 +1313,19 @@ fn vm_step(vm: &mut Vm, tok: &str, o: &mut Oracle) {
                     },
                 },
             };
+            if let Wr::Ok(xs) = &wi {
+                let bs = pack_ints(xs);
+                reuse_check("read", &vb, &|t, ws| t.read(ws, &mut vec![], &bs), o);
+                reuse_check("read_from_ints", &vi, &|t, ws| t.read_from_ints(ws, xs), o);
+            }
+            if !d15 {
+                if let Some(xs) = delta_write_ints(&d, osz_none) {
+                    if let Rs::Ok(d2, _) = read_delta_ints(osz_none, &xs) {
+                        let prev = vm.prev.clone();
+                        reuse_check("read_with_delta", &vx, &|t, ws| t.read_with_delta(ws, &prev, &d2), o);
+                    }
+                }
+            }
             // C10 oracle: each copy is indistinguishable from the original
             for (name, v, skip) in [("bytes", &vb, false), ("ints", &vi, false), ("delta", &vx, d15)] {
                 if skip {
@@ -1347,6 +1473,7 @@ impl Runner for R {
                 Some(xs) => {
                     let (r, peak) = alloc_count::measure(|| snap_read_ints(&xs));
                     alloc_oracle("Snap::read_from_ints", xs.len() * 4, peak, o);
+                    reuse_check("read_from_ints", &r, &|t, ws| t.read_from_ints(ws, &xs), o);
                     op_rsnap(r, o)
                 }
                 None => "bad-op".to_string(),
@@ -1355,6 +1482,7 @@ impl Runner for R {
                 Some(bs) => {
                     let (r, peak) = alloc_count::measure(|| snap_read_bytes(&bs));
                     alloc_oracle("Snap::read", bs.len(), peak, o);
+                    reuse_check("read", &r, &|t, ws| t.read(ws, &mut vec![], &bs), o);
                     op_rsnap(r, o)
                 }
                 None => "bad-op".to_string(),
